@@ -8,6 +8,7 @@ import struct
 import vlib
 
 MODEL_VO = ['Mtz/Header.vo', 'Mtz/Data.vo', 'Mtz/RowBuf.vo']
+SPEC_VO = ['Mtz/SpecCheck.vo']
 
 
 # short sanitizer reports: the SUMMARY line must survive vlib's 1500-character tail
@@ -16,9 +17,7 @@ SAN_ENV = {'ASAN_OPTIONS': 'detect_leaks=0:abort_on_error=0:allocator_may_return
 
 def gen_tables():
     """Translator: regenerate coq/Mtz/Spec_gen.v (default spec tables of MtzToCif / CifToMtz) from the repo."""
-    exe = vlib.build_exe('dump_mtzspec', [vlib.ROOT + '/gen/dump_mtzspec.cpp'] +
-                         vlib.repo_src('mtz2cif.cpp', 'mtz.cpp', 'symmetry.cpp', 'sprintf.cpp', 'gz.cpp'),
-                         flags=['-O0'])
+    exe = vlib.build_exe('dump_mtzspec', [vlib.ROOT + '/gen/dump_mtzspec.cpp'], flags=['-O0'])
     rc, out, err = vlib.sh([exe], timeout=120)
     if rc != 0:
         raise RuntimeError('dump_mtzspec failed: ' + err.decode()[-2000:])
